@@ -175,6 +175,14 @@ func (x *Exec) checkPost(st *St, fr *Frame, v *Val, names map[string]*Val) {
 			}
 		}
 	}
+	// locals of the function at this return point are visible (for witness hints only)
+	for o, val := range st.vars {
+		if vo, ok := o.(*types.Var); ok && val != nil {
+			if _, taken := post[vo.Name()]; !taken {
+				post[vo.Name()] = val
+			}
+		}
+	}
 	oldEnv := &CEnv{X: x, Names: names, St: x.entry, Pkg: fi.Pkg}
 	env := &CEnv{X: x, Names: post, St: st, Pkg: fi.Pkg, Old: oldEnv}
 	x.wrapCfail("postcondition of "+c.Key, func() {
@@ -273,7 +281,12 @@ func (w *World) lemmaAxiom(x *Exec, lc *Contract, lf *FuncInfo) *Term {
 				vars = append(vars, v)
 			}
 		}
-		pre = append([]*Term{wfx.wfAtom(hst)}, pre...)
+		atom := wfx.wfAtom(hst)
+		pre = append([]*Term{atom}, pre...)
+		// the $WF atom joins every trigger so that all heap components are bound by matching
+		for i := range pats {
+			pats[i] = append(pats[i], atom)
+		}
 	}
 	x.ids = sub.ids
 	body := Implies(And(append(guards, pre...)...), And(post...))
@@ -291,6 +304,20 @@ func (w *World) lemmaAxiom(x *Exec, lc *Contract, lf *FuncInfo) *Term {
 		vars = append(vars, fuelVar)
 	} else {
 		body = body.Subst(map[string]*Term{fuelVar.Op: baseFuel})
+	}
+	for _, p := range pats {
+		syms := map[string]Sort{}
+		for _, pt := range p {
+			pt.Collect(map[string]bool{}, syms, map[string]bool{})
+		}
+		for _, v := range vars {
+			if _, ok := syms[v.Op]; !ok {
+				cfail("lemma %s: trigger does not mention %s (every quantified variable, including the heap components the lemma reads, must occur in each trigger)", lc.Key, v.Op)
+			}
+		}
+	}
+	if len(pats) == 0 {
+		cfail("lemma %s has no trigger", lc.Key)
 	}
 	return Forall(vars, pats, body, "lemma."+lc.Key)
 }
